@@ -44,6 +44,36 @@ pub fn solve_fresh(text: &str, goal: &UCanonical<InEnvironment<Goal<ChalkIr>>>, 
     catch(std::panic::AssertUnwindSafe(move || db.solve(&goal)))
 }
 
+/// Payload of the panic raised by the `cfg(chalk_verif)` work counters when a budget is exceeded.
+pub const BUDGET_PANIC: &str = "verif-work-budget-exceeded";
+
+/// `solve_fresh` with a budget on the solvers' work counters (ticks of the SLG `ensure_root_answer`
+/// loop and of the recursive solver's `solve_goal` / fixed-point loop); exceeding it gives
+/// `Err(BUDGET_PANIC)`.
+pub fn solve_fresh_budget(
+    text: &str,
+    goal: &UCanonical<InEnvironment<Goal<ChalkIr>>>,
+    choice: SolverChoice,
+    budget: Option<u64>,
+) -> Result<Option<Solution<ChalkIr>>, String> {
+    let db = ChalkDatabase::with(text, choice);
+    solve_budget(&db, goal, budget)
+}
+
+/// the same on a given (possibly reused) solver instance
+pub fn solve_budget(db: &ChalkDatabase, goal: &UCanonical<InEnvironment<Goal<ChalkIr>>>, budget: Option<u64>) -> Result<Option<Solution<ChalkIr>>, String> {
+    chalk_recursive::verif::reset_work(budget);
+    chalk_engine::verif_work::reset(budget);
+    let goal = goal.clone();
+    let r = catch(std::panic::AssertUnwindSafe(move || db.solve(&goal)));
+    chalk_recursive::verif::reset_work(None);
+    chalk_engine::verif_work::reset(None);
+    match r {
+        Err(site) if site.contains(BUDGET_PANIC) => Err(BUDGET_PANIC.to_string()),
+        r => r,
+    }
+}
+
 pub fn answer_kind(r: &Result<Option<Solution<ChalkIr>>, String>) -> &'static str {
     match r {
         Ok(None) => "none",
